@@ -329,4 +329,82 @@ theorem sleeps_spec : ∀ (l : List PlayEv) (t0 : Int), InRange t0 →
         simp only [List.take_succ_cons, List.sum_cons, List.getElem_cons_succ, this]
         omega
 
+/-! ## what is trusted of `sort.Stable`, made exact -/
+
+/-- `out` is a stable sort of `l` by `key`: sorted, and for every key value the elements with that key are the
+    same ones, in the same order -/
+def StableSortOf {α : Type} (key : α → Int) (l out : List α) : Prop :=
+  out.Pairwise (fun a b => key a ≤ key b) ∧
+  ∀ k : Int, out.filter (fun a => key a == k) = l.filter (fun a => key a == k)
+
+/-- two sorted lists with the same elements per key, in the same order per key, are equal -/
+theorem stable_unique_aux {α : Type} (key : α → Int) : ∀ (l1 l2 : List α),
+    l1.Pairwise (fun a b => key a ≤ key b) → l2.Pairwise (fun a b => key a ≤ key b) →
+    (∀ k : Int, l1.filter (fun a => key a == k) = l2.filter (fun a => key a == k)) → l1 = l2
+  | [], [], _, _, _ => rfl
+  | [], b :: r2, _, _, h => by
+    have := h (key b); simp at this
+  | a :: r1, [], _, _, h => by
+    have := h (key a); simp at this
+  | a :: r1, b :: r2, h1, h2, h => by
+    simp only [List.pairwise_cons] at h1 h2
+    have hab : key a = key b := by
+      have ha := h (key a)
+      have hb := h (key b)
+      simp only [List.filter_cons, beq_self_eq_true, if_true] at ha hb
+      have ha' : a ∈ (b :: r2).filter (fun x => key x == key a) := by
+        simp only [List.filter_cons]; rw [← ha]; exact List.mem_cons_self
+      have hb' : b ∈ (a :: r1).filter (fun x => key x == key b) := by
+        simp only [List.filter_cons]; rw [hb]; exact List.mem_cons_self
+      simp only [List.mem_filter, List.mem_cons, beq_iff_eq] at ha' hb'
+      have l1 : key b ≤ key a := by
+        rcases ha'.1 with rfl | hm
+        · exact Int.le_refl _
+        · exact h2.1 a hm
+      have l2 : key a ≤ key b := by
+        rcases hb'.1 with rfl | hm
+        · exact Int.le_refl _
+        · exact h1.1 b hm
+      omega
+    have hk := h (key a)
+    simp only [List.filter_cons, beq_self_eq_true, if_true, hab] at hk
+    simp only [← hab, List.cons.injEq] at hk
+    obtain ⟨rfl, _⟩ := hk
+    congr 1
+    apply stable_unique_aux key r1 r2 h1.2 h2.2
+    intro k
+    have := h k
+    simp only [List.filter_cons] at this
+    by_cases hk' : (key a == k) = true
+    · simp only [hk', if_true, List.cons.injEq, true_and] at this; exact this
+    · simp only [hk'] at this; exact this
+
+/-- `List.mergeSort` with `≤` on the time key is a stable sort in this sense -/
+theorem mergeSort_stable (l : List PlayEv) : StableSortOf (fun x => x.ev.time) l (l.mergeSort le) := by
+  constructor
+  · have := List.pairwise_mergeSort le_trans' le_total' l
+    simpa [le] using this
+  · intro k
+    have hpw : (l.filter (fun x => x.ev.time == k)).Pairwise (fun a b => le a b = true) := by
+      rw [List.pairwise_filter]
+      rw [List.pairwise_iff_forall_sublist]
+      intro a b _ ha hb
+      simp only [beq_iff_eq] at ha hb
+      simp only [le, decide_eq_true_eq]; omega
+    have hsub : (l.filter (fun x => x.ev.time == k)).Sublist (l.mergeSort le) :=
+      List.sublist_mergeSort le_trans' le_total' hpw List.filter_sublist
+    have h2 := hsub.filter (fun x => x.ev.time == k)
+    rw [List.filter_filter] at h2
+    simp only [Bool.and_self] at h2
+    have hlen : ((l.mergeSort le).filter (fun x => x.ev.time == k)).length =
+        (l.filter (fun x => x.ev.time == k)).length :=
+      ((List.mergeSort_perm l le).filter _).length_eq
+    exact (h2.eq_of_length hlen.symm).symm
+
+/-- … and the only one: whatever stable sort `sort.Stable` implements, its result is the model's -/
+theorem stable_sort_unique (l out : List PlayEv) (h : StableSortOf (fun x => x.ev.time) l out) :
+    out = l.mergeSort le := by
+  have hm := mergeSort_stable l
+  exact stable_unique_aux _ _ _ h.1 hm.1 (fun k => (h.2 k).trans (hm.2 k).symm)
+
 end Midi.Play
